@@ -4,6 +4,7 @@ import (
 	"fmt"
 	"go/token"
 	"go/types"
+	"morlockverif/checker/internal/core"
 	"strings"
 
 	"golang.org/x/tools/go/ssa"
@@ -211,7 +212,7 @@ func c08Fork(c *Ctx, g *gameModel) {
 	}
 	where := c.pos(fork.Pos())
 	bst := g.boardT.Underlying().(*types.Struct)
-	nodeT := c.P.NamedType("pkg/board", "node")
+	nodeT := c.namedType("pkg/board", "node")
 	// the Board literal
 	var lit *ssa.Alloc
 	for _, blk := range fork.Blocks {
@@ -236,8 +237,8 @@ func c08Fork(c *Ctx, g *gameModel) {
 	}
 	var missing []string
 	for i := 0; i < bst.NumFields(); i++ {
-		if _, ok := stored[bst.Field(i).Name()]; !ok {
-			missing = append(missing, bst.Field(i).Name())
+		if _, ok := stored[core.FieldName(bst.Field(i))]; !ok {
+			missing = append(missing, core.FieldName(bst.Field(i)))
 		}
 	}
 	r.Check(len(missing) == 0, "R08-fork", "board.Board.Fork copies every Board field", where, "", "fields left at their zero value in the fork: "+strings.Join(missing, ", "))
@@ -311,7 +312,7 @@ func c08Fork(c *Ctx, g *gameModel) {
 
 	// the Zobrist table is never written after construction
 	ztT := c.P.NamedType("pkg/board", "ZobristTable")
-	ctor := c.P.Func("pkg/board", "", "NewZobristTable")
+	ctor := c.find("pkg/board", "", "NewZobristTable")
 	var writers []string
 	for _, fs := range allFieldStores(c.P) {
 		if fs.Named != nil && ztT != nil && fs.Named.Obj() == ztT.Obj() && fs.Fn != ctor {
@@ -323,7 +324,7 @@ func c08Fork(c *Ctx, g *gameModel) {
 
 func fieldByName(st *types.Struct, name string) *types.Var {
 	for i := 0; i < st.NumFields(); i++ {
-		if st.Field(i).Name() == name {
+		if core.FieldName(st.Field(i)) == name {
 			return st.Field(i)
 		}
 	}
@@ -332,7 +333,7 @@ func fieldByName(st *types.Struct, name string) *types.Var {
 
 func c08NoMut(c *Ctx, g *gameModel) {
 	r := c.R
-	nodeT := c.P.NamedType("pkg/board", "node")
+	nodeT := c.namedType("pkg/board", "node")
 	if nodeT == nil {
 		r.Undecided("R08-nomut", "anchor:board.node", "", "", "type not found")
 		return
